@@ -72,6 +72,7 @@ def run(batch, n_runs):
     base = base_dir()
     C.warm_dir(base)
     C.stale_grammar_dir(base)
+    C.stale_grammar_dir(base, 'ruleorder')
     for o in C.ORDERS:
         C.reference(base, o)        # computed once in the parent, inherited by the forked workers
     seed = batch.seed
